@@ -157,6 +157,7 @@ func runDyn(o *Opts) *Summary {
 	sigInj := map[string]int{}
 	ffJoins := 0
 	apiReads := 0
+	selects := 0
 	for t := 0; t < o.Traces; t++ {
 		n0 := o.N
 		if n0 == 0 {
@@ -311,6 +312,22 @@ func runDyn(o *Opts) *Summary {
 				b := bab[w.rng.Intn(len(bab))]
 				if a != b {
 					vn.Gossip(a, b, o.Full > 0 && k%o.Full == 0)
+					// the peer selector: the exchange is recorded as Node.gossip does, and the
+					// node is asked whom it would gossip with next
+					if a.State() == "Babbling" {
+						a.node.VSelectorUpdateLast(b.part.ID, true)
+						picked := 0
+						if p := a.node.VNextPeer(); p != nil {
+							if q := w.PartByPub(p.PubKeyHex); q != nil {
+								picked = q.Num
+							} else {
+								picked = -1
+							}
+						}
+						w.Emit(a.num, "Select", map[string]interface{}{"self": a.num, "last": b.num, "peers": w.PeerNums(a.core.Peers().Peers)},
+							map[string]interface{}{"picked": picked})
+						selects++
+					}
 				}
 			} else if len(bab) == 1 {
 				vn.Monologue(bab[0])
@@ -582,6 +599,7 @@ func runDyn(o *Opts) *Summary {
 	s.Extra["refused_by_app"] = refused
 	s.Extra["valid_adopted"] = ffJoins
 	s.Extra["api_reads"] = apiReads
+	s.Extra["peer_selections"] = selects
 	s.Extra["adversarial_signature_events"] = sigInj
 	s.Traces = o.Traces
 	s.Lines = w.lines
